@@ -11,7 +11,7 @@ pub fn prop() -> Prop {
     Prop {
         id: "C08",
         level: "model_checking",
-        rule: "all streams of <=4 (thorough <=5) rows {k,v,id} over the keys {a,b,c,absent} (ids make tied rows distinguishable) plus every stream of <=3 rows repeated cyclically to 17 and 40 rows x 12 pipelines (none; 1,2,3 sort keys with ties in both directions; unique; unique+sort on a selected name; filter; filter+sort; split; split+sort) x {no grouping, --group-by, --merge} x S in 0..3 (thorough 0..6; long: 0,1,5,16,17,39,40,41) x T in {absent,0..3} (thorough 0..6; long: 0,1,5,16,17,40,41); non-trivial = the cut S+T falls inside the unlimited result and a tie straddles it, or a grouping stage follows the limiter; distinct by construction",
+        rule: "all streams of <=4 (thorough <=5) rows {k,v,id} over the keys {a,b,c,absent} (ids make tied rows distinguishable) plus every stream of <=3 rows repeated cyclically to 17 and 40 rows x 13 pipelines (none; a selection under which rows repeat; 1,2,3 sort keys with ties in both directions; unique; unique+sort on a selected name; filter; filter+sort; split; split+sort) x {no grouping, --group-by, --merge} x S in 0..3 (thorough 0..6; long: 0,1,5,16,17,39,40,41) x T in {absent,0..3} (thorough 0..6; long: 0,1,5,16,17,40,41); non-trivial = the cut S+T falls inside the unlimited result and a tie straddles it, or a grouping stage follows the limiter; distinct by construction",
         explanation: "differential: the rows R of the same pipeline without --skip/--take (and without grouping) are obtained from the implementation; with the limits the output must be exactly R[S..S+T), and with grouping the single collection built from exactly those rows; every case is also compared with the reference pipeline (stable multi-key sort, first key most significant)",
         assumptions: COMMON_ASSUMPTIONS.to_vec(),
         guards: vec!["cut-inside-a-tie", "limiter-before-grouper", "secondary-key-with-take", "take-zero", "skip-beyond-end", "more-rows-than-skip-plus-take-under-sort"],
@@ -51,6 +51,7 @@ fn pipelines() -> Vec<Pl> {
         mk("sort-k,v", &|c| c.sorts = vec![s(".k", false, "asc"), s(".v", false, "")], false),
         mk("sort-v-desc,k", &|c| c.sorts = vec![s(".v", true, "desc"), s(".k", false, "ASC")], false),
         mk("sort-k,v-desc,id-desc", &|c| c.sorts = vec![s(".k", false, ""), s(".v", true, "Desc"), s(".id", true, "DESC")], false),
+        mk("select-k-only", &|c| c.selects = vec![(p(".k"), "k".into())], false),
         mk("unique-on-k", &|c| {
             c.selects = vec![(p(".k"), "k".into())];
             c.unique = true
